@@ -9,6 +9,7 @@ import (
 	"strconv"
 	"strings"
 	"testing"
+	"unicode/utf8"
 	"unsafe"
 
 	"github.com/corazawaf/coraza/v3"
@@ -225,6 +226,33 @@ func checkC14(c *C14Case) Result {
 			res.Fail = failf("t:uppercase(%q) = %q want %q", ref, outCopy, asciiUpper(ref))
 			return res
 		}
+	}
+	if name == "lowercase" || name == "uppercase" {
+		// whatever the letter mapping is (C locale or Unicode), it is applied character by character: the result
+		// of a concatenation is the concatenation of the results (cut at character boundaries), and mapping twice
+		// changes nothing more
+		for i := 0; i < len(ref); {
+			_, sz := utf8.DecodeRune(ref[i:])
+			i += sz
+			if i >= len(ref) {
+				break
+			}
+			a, _, _, fa := callT(c.Name, string(ref[:i]))
+			b, _, _, fb := callT(c.Name, string(ref[i:]))
+			if fa != nil || fb != nil {
+				continue
+			}
+			if a+b != outCopy {
+				res.Fail = failf("t:%s is not applied character by character: %s(%q)=%q but %s(%q)+%s(%q)=%q", c.Name, c.Name, ref, outCopy, c.Name, ref[:i], c.Name, ref[i:], a+b)
+				return res
+			}
+		}
+		if again, _, _, f := callT(c.Name, outCopy); f == nil && again != outCopy {
+			res.Fail = failf("t:%s is not idempotent on %q: once %q twice %q", c.Name, ref, outCopy, again)
+			return res
+		}
+	}
+	switch name {
 	case "none":
 		if outCopy != string(ref) {
 			res.Fail = failf("t:none(%q) = %q", ref, outCopy)
